@@ -626,6 +626,22 @@ def ground(run):
                     'Sportshall column %s: %s pts at %s, %s pts at %s' % (ev, p0, v0, p1, v1))
         ok = bool(athlib.check_event_code(ev)) and athlib.normalize_event_code(ev) == ev
         _ground(run, 'table-key/sportshall/%s' % ev, ok, dict(system='sportshall', event=ev), 'key %r' % ev)
+    # contract of load_data: the table the scorer works from is the published sheet (RAWDATA) read column by column - every row
+    # with a mark, the vertical jump in metres; nothing dropped, merged or reordered (the look-up spec above is stated over it)
+    raw = sh.RAWDATA
+    labels = [r[0] for r in raw]
+    for ci, ev in enumerate(raw[0][1:], start=1):
+        col = {lab: r[ci] for lab, r in zip(labels, raw)}
+        want = []
+        for pts in range(1, 81):
+            cell = col.get(str(pts), '-')
+            if cell != '-':
+                want.append((pts, Fraction(int(cell), 100) if ev == 'SHJ' else Fraction(cell)))
+        got = [(p_, Fraction(v_)) for p_, v_ in db.get(ev, {}).get('perf2points', [])]
+        ok = got == want and db.get(ev, {}).get('incpoints') == col.get('incpoints')
+        miss = [x for x in want if x not in got][:3]
+        _ground(run, 'load_data/sportshall/%s-is-the-sheet-column' % ev, ok, dict(system='sportshall', event=ev, missing=[(a, str(b)) for a, b in miss]),
+                'load_data()[%r] differs from the sheet column (e.g. rows %r)' % (ev, [(a, str(b)) for a, b in miss]))
     # Bulgarian tables: contiguous keys between min and max, ordered
     bg = _bg()
     for key, t in bg.scores.items():
